@@ -426,7 +426,8 @@ class RecvWorld(World):
         alphabet the property under check quantifies over (sc['relax_x']). X's own completeness
         obligations are then not demanded - its safety obligations, every obligation about the other
         message and every global one are."""
-        return bool(self.sc.get("relax_x")) and self.sc.get("x") == i
+        x = self.sc.get("x")
+        return bool(self.sc.get("relax_x")) and (x == i or (isinstance(x, (list, tuple)) and i in x))
 
     def task_name_for(self, i: int) -> str:
         if self.msgs[i].get("task_kind") == "annot":
@@ -840,13 +841,59 @@ class RecvWorld(World):
         per fingerprint."""
         if self._hidden_cache is not None:
             return self._hidden_cache
+        from collections import deque
+
         from mc.send_world import scalar_attrs
+
+        owners: Dict[int, Any] = {}
+
+        def owner(x: Any) -> Any:
+            """Which live task holds this object in a frame local (e.g. 'the dep_ctx of callback 2'):
+            identifies an opaque object independently of the path that led here."""
+            if not owners:
+                owners[0] = None
+                from mc.vloop import _frame_of, _resolve_opaque
+
+                for t in asyncio.all_tasks(self.loop):
+                    if t.done():
+                        continue
+                    name = repr(self.name_of(t))
+                    obj: Any = t.get_coro()
+                    hops = 0
+                    while obj is not None and hops < 64:
+                        hops += 1
+                        frame, nxt = _frame_of(obj)
+                        if frame is None:
+                            obj = _resolve_opaque(obj) if not isinstance(obj, asyncio.Future) else None
+                            continue
+                        for ln, lv in frame.f_locals.items():
+                            if not isinstance(lv, (bool, int, float, str, bytes, type(None))):
+                                owners.setdefault(id(lv), (name, frame.f_code.co_name, ln))
+                        obj = nxt
+            return owners.get(id(x))
+
+        def hv(x: Any, depth: int = 0) -> Any:
+            if x is None or isinstance(x, (bool, int, float, str, bytes)):
+                return x
+            a = self.abstract(x)
+            if a is not NotImplemented:
+                return a
+            if isinstance(x, (asyncio.Future, asyncio.Semaphore, asyncio.Queue, asyncio.Event, BaseException)):
+                return self.abs_val(x, 2)
+            if depth < 3:
+                if isinstance(x, (list, tuple, deque)):
+                    return (type(x).__name__,) + tuple(hv(y, depth + 1) for y in x)
+                if isinstance(x, (set, frozenset)):
+                    return ("set",) + tuple(sorted((hv(y, depth + 1) for y in x), key=repr))
+                if isinstance(x, dict):
+                    return ("dict",) + tuple(sorted(((hv(k, depth + 1), hv(y, depth + 1)) for k, y in x.items()), key=repr))
+            return ("obj", type(x).__name__, owner(x))
 
         out = []
         for k, x in sorted(vars(recv).items()):
             if k in self._R_SKIP:
                 continue
-            out.append((k, self.abs_val(x, 2)))
+            out.append((k, hv(x)))
         self._hidden_cache = (tuple(out), scalar_attrs(recv.broker))
         return self._hidden_cache
 
